@@ -57,6 +57,7 @@ class Summary:
         self.transitions = 0; self.violations = []; self.inconclusive = []; self.samples = {}; self.maxdepth = 0
         self.obligations = 0; self.stubs = set(); self.fns = set(); self.left = 0; self.wall = 0.0; self.exhaustive = True
         self.steplimits = []
+        self.vsamples = []      # (input, observed class) pairs a harness offers for native cross-validation
 
     def add(self, r):
         self.paths += 1; self.status[r['st']] += 1
@@ -66,6 +67,7 @@ class Summary:
         if r['st'] == 'violation': self.violations.append(r)
         elif r['st'] == 'inconclusive': self.inconclusive.append(r.get('why'))
         elif r['st'] == 'steplimit': self.steplimits.append(r)
+        if r.get('vs') is not None and (len(self.vsamples) < 400 or (self.paths % 97 == 0 and len(self.vsamples) < 1200)): self.vsamples.append(r['vs'])
         c = r.get('cls')
         if c is not None and c not in self.samples and r.get('sample') is not None and len(self.samples) < 40:
             self.samples[c] = r['sample']
